@@ -12,16 +12,67 @@ func init() {
 	props["C02"] = &propDef{run: runC02, explanation: "Structural clause of C02 decided by static analysis (engine G = exact must-pass-through on success edges of the CFG with interprocedural Ensures summaries; engine P = access-path provenance): every state-producing path of the update/recover/deactivate apply functions crosses the success edge of VerifyJWS on (op.SignedData, key parsed from that same signed data); VerifyJWS succeeds only across VerifySignature on the rebuilt signing input and both verifiers branch on the result of ecdsa/ed25519.Verify; the parser (batch and non-batch) accepts only across the reveal-value hash check on the signing key; signed-data parsing succeeds only across ParseJWS and the protected-header rules (alg present, non-empty, whitelist = {alg,kid}, alg in the configured list); document content / update commitment is installed only behind the delta-hash check on the same delta object; deactivate compares signed and request suffix. Not decided: unforgeability of the signature schemes and hash functions (trusted base). The header whitelist is a test against the constant set {alg,kid} in any spelling, in for-all form, and the loop cannot be bypassed."}
 }
 
-// parseCallPath finds the applier's call to Parse<Type>Operation(op.OperationRequest, true) and returns it.
-func (c *Ctx) applierParseCall(rule, typ string, f *ssa.Function) *ssa.Call {
-	cs := callsNamed(f, parseOpMethod[typ])
-	var ok []*ssa.Call
-	for _, cl := range cs {
-		a := declArgs(cl)
-		if len(a) == 2 && c.Path(a[0], nil) == "$1.OperationRequest" && c.Path(a[1], nil) == "true" {
-			ok = append(ok, cl)
-		}
+// tcall: a call found in the call tree of an entry function (in the function itself or in an unexported helper it
+// calls), with the environment that renders the helper's values in the entry function's frame.
+type tcall struct {
+	call *ssa.Call
+	env  Env
+	fn   *ssa.Function
+	top  *ssa.Call // the call in the entry function through which the call is reached (the call itself when it is there)
+}
+
+func (t *tcall) P(c *Ctx) string { return c.Path(t.call, t.env) }
+
+// treeCalls lists the calls matching m in f and, through static calls, in the module helpers it calls (two levels).
+func (c *Ctx) treeCalls(f *ssa.Function, env Env, depth int, m func(cl *ssa.Call, env Env) bool) []*tcall {
+	return c.treeCallsT(f, env, depth, nil, m)
+}
+
+func (c *Ctx) treeCallsT(f *ssa.Function, env Env, depth int, top *ssa.Call, m func(cl *ssa.Call, env Env) bool) []*tcall {
+	var out []*tcall
+	if f == nil || f.Blocks == nil || depth > 2 {
+		return nil
 	}
+	forEachInstr(f, func(in ssa.Instruction) {
+		cl, ok := in.(*ssa.Call)
+		if !ok {
+			return
+		}
+		if m(cl, env) {
+			t := top
+			if t == nil {
+				t = cl
+			}
+			out = append(out, &tcall{call: cl, env: env, fn: f, top: t})
+			return
+		}
+		if g := cl.Call.StaticCallee(); g != nil && inModule(g) && g.Blocks != nil && g != f && pkgPathOf(g) == pkgPathOf(f) && (g.Object() == nil || !g.Object().Exported()) {
+			t := top
+			if t == nil {
+				t = cl
+			}
+			out = append(out, c.treeCallsT(g, c.calleeEnv(&cl.Call, g, env), depth+1, t, m)...)
+		}
+	})
+	return out
+}
+
+func callNamed(cl *ssa.Call, name string) bool {
+	if cl.Call.IsInvoke() {
+		return cl.Call.Method.Name() == name
+	}
+	if g := cl.Call.StaticCallee(); g != nil {
+		return g.Name() == name
+	}
+	return false
+}
+
+// applierParseCall finds the applier's call to Parse<Type>Operation(op.OperationRequest, true).
+func (c *Ctx) applierParseCall(rule, typ string, f *ssa.Function) *tcall {
+	ok := c.treeCalls(f, nil, 0, func(cl *ssa.Call, env Env) bool {
+		a := declArgs(cl)
+		return callNamed(cl, parseOpMethod[typ]) && len(a) == 2 && c.Path(a[0], env) == "$1.OperationRequest" && c.Path(a[1], env) == "true"
+	})
 	if len(ok) != 1 {
 		c.Check(rule, "apply-"+typ+":parse-call", false, f.Pos(), fmt.Sprintf("expected exactly one call %s(anchoredOp.OperationRequest, true) in %s, found %d", parseOpMethod[typ], short(f.String()), len(ok)))
 		return nil
@@ -29,14 +80,11 @@ func (c *Ctx) applierParseCall(rule, typ string, f *ssa.Function) *ssa.Call {
 	return ok[0]
 }
 
-func (c *Ctx) applierSDCall(rule, typ string, f *ssa.Function, opPath string) *ssa.Call {
-	var ok []*ssa.Call
-	for _, cl := range callsNamed(f, parseSDMethod[typ]) {
+func (c *Ctx) applierSDCall(rule, typ string, f *ssa.Function, opPath string) *tcall {
+	ok := c.treeCalls(f, nil, 0, func(cl *ssa.Call, env Env) bool {
 		a := declArgs(cl)
-		if len(a) == 1 && c.Path(a[0], nil) == opPath+"#0.SignedData" {
-			ok = append(ok, cl)
-		}
-	}
+		return callNamed(cl, parseSDMethod[typ]) && len(a) == 1 && c.Path(a[0], env) == opPath+"#0.SignedData"
+	})
 	if len(ok) != 1 {
 		c.Check(rule, "apply-"+typ+":signed-data-call", false, f.Pos(), fmt.Sprintf("expected exactly one call %s(op.SignedData) on the parsed operation in %s, found %d", parseSDMethod[typ], short(f.String()), len(ok)))
 		return nil
@@ -66,12 +114,12 @@ func runC02(c *Ctx) {
 		if pc == nil {
 			continue
 		}
-		P := c.Path(pc, nil)
+		P := pc.P(c)
 		sc := c.applierSDCall("C02.G1", typ, f, P)
 		if sc == nil {
 			continue
 		}
-		S := c.Path(sc, nil)
+		S := sc.P(c)
 		chk := callTo("VerifyJWS(op.SignedData, signedData."+sdKeyField[typ]+")", verifyJWS, pathIs(P+"#0.SignedData"), pathIs(S+"#0."+sdKeyField[typ]))
 		c.CheckGuard("C02.G1", "apply-"+typ+":VerifyJWS", f, nil, chk)
 	}
@@ -248,7 +296,7 @@ func runC02(c *Ctx) {
 		if pc == nil {
 			continue
 		}
-		P := c.Path(pc, nil)
+		P := pc.P(c)
 		var hashPath string
 		if typ == "create" {
 			hashPath = P + "#0.SuffixData.DeltaHash"
@@ -257,7 +305,7 @@ func runC02(c *Ctx) {
 			if sc == nil {
 				continue
 			}
-			hashPath = c.Path(sc, nil) + "#0.DeltaHash"
+			hashPath = sc.P(c) + "#0.DeltaHash"
 		}
 		chk := callTo("IsValidModelMultihash(op.Delta, signed delta hash)", isValidMH, pathIs(P+"#0.Delta"), pathIs(hashPath))
 		if typ == "update" {
@@ -282,9 +330,9 @@ func runC02(c *Ctx) {
 	// ---- G6: deactivate suffix equality (applier and parser)
 	if f := af["deactivate"]; f != nil {
 		if pc := c.applierParseCall("C02.G6", "deactivate", f); pc != nil {
-			P := c.Path(pc, nil)
+			P := pc.P(c)
 			if sc := c.applierSDCall("C02.G6", "deactivate", f, P); sc != nil {
-				S := c.Path(sc, nil)
+				S := sc.P(c)
 				c.CheckGuard("C02.G6", "apply-deactivate:suffix-equality", f, nil, cmpReject("op.UniqueSuffix != signedData.DidSuffix rejected", token.NEQ, pathIs(P+"#0.UniqueSuffix"), pathIs(S+"#0.DidSuffix")))
 			}
 		}
